@@ -247,6 +247,10 @@ func cmdCheck(args []string) int {
 	if s := os.Getenv("VERIF_SEED"); s != "" {
 		seed, _ = strconv.Atoi(s)
 	}
+	replaySeed = seed
+	if *tier == "thorough" {
+		replayBudgetMs = 30000
+	}
 	t0 := time.Now()
 	smtDir = filepath.Join(verifDir, "out", "smt", *property+"-"+*tier)
 	os.RemoveAll(smtDir)
@@ -377,6 +381,33 @@ func cmdCheck(args []string) int {
 		violations++
 		exit = 1
 	}
+	// bounded stand-ins (labelled bounded, never counted as proved): the property's oracle on the unchanged tree
+	var standins []map[string]interface{}
+	if sd, ok := boundedStandins[*property]; ok && *only == "" {
+		budget := 2500
+		if *tier == "thorough" {
+			budget = 30000
+		}
+		for _, tags := range tsets {
+			r := runOracle(*property, tags, budget, seed)
+			if !r.ran {
+				continue
+			}
+			entry := map[string]interface{}{"what": sd, "bound": fmt.Sprintf("%d ms of generated cases, seed %d", budget, seed+1), "cases": r.cases, "tags": tags, "result": "pass", "cmd": r.cmd}
+			if r.failed {
+				entry["result"] = "FAIL"
+				entry["failing_inputs"] = r.inputs
+				path := writeReplay(*property, "bounded-standin-"+tags, "bounded stand-in: "+sd+"\nreplay command: "+r.cmd+"\nfailing inputs:\n  "+strings.Join(r.inputs, "\n  "), nil)
+				fmt.Printf("VIOLATION property=%s replay=%s obligation=bounded-standin\n", *property, path)
+				violations++
+				exit = 1
+			} else if strings.Contains(r.output, "build failed") || strings.Contains(r.output, "cannot") && !strings.Contains(r.output, "ok ") {
+				entry["result"] = "not run: " + firstLines(r.output, 3)
+			}
+			standins = append(standins, entry)
+		}
+	}
+	standinsOut = standins
 	// vacuity: obligation count must be non-zero
 	if len(all) == 0 && exit == 0 {
 		fmt.Printf("VIOLATION property=%s replay=%s obligation=none no-failing-input-found\n", *property,
@@ -394,6 +425,13 @@ func cmdCheck(args []string) int {
 }
 
 var nSmokes int
+var standinsOut []map[string]interface{}
+
+// boundedStandins: what the oracle run stands in for (parts of the property no discharged contract covers).
+var boundedStandins = map[string]string{
+	"C03": "wire bytes (type, length, value, padding) of attributes re-added by Encode/WriteAttributes, and the decode(encode(m)) == m / encode(decode(b)) == b compositions, on generated messages (0..6 attributes, values 0..3200 bytes, fresh / reused / poisoned buffers)",
+	"C06": "the add -> decode -> get composition for every typed attribute on generated values (all ports, IPv4/IPv6/mapped addresses, text up to each limit, codes 300..699, lists of 0..64 types) and reference-encoded messages",
+}
 
 func writeEvidence(property, tier string, seed int, all []*Obligation, funcs []funcReport, trusted, transp map[string]bool,
 	nTriv, nDis, violations int, wall float64, tsets []string, progs []*Program) {
@@ -439,7 +477,7 @@ func writeEvidence(property, tier string, seed int, all []*Obligation, funcs []f
 			"solvers":              sv,
 			"integer_mode":         "mathematical Int with exact wrap-around for 8/16/32-bit and unsigned types; int/int64 unbounded",
 			"samples":              samples,
-			"bounded_standins":     []string{},
+			"bounded_standins":     standinsOut,
 			"vacuity_probes":       nSmokes,
 		},
 		Assumptions: assumptionList(progs),
